@@ -49,7 +49,9 @@ def reset_stage_to_succeeded(stage: StageExecution, end_time: int) -> None:
     stage.status = WorkflowStatus.SUCCEEDED
     stage.end_time = end_time
     for task in stage.tasks:
-        if task.status == WorkflowStatus.RUNNING:
+        # REDIRECT: the jumping task's CompleteTask(REDIRECT) was handled before
+        # this JumpToStage; same final status as when it is handled after.
+        if task.status in (WorkflowStatus.RUNNING, WorkflowStatus.REDIRECT):
             task.status = WorkflowStatus.SUCCEEDED
             task.end_time = end_time
 
@@ -78,6 +80,6 @@ def reset_stage_to_terminal(stage: StageExecution, end_time: int) -> None:
     stage.status = WorkflowStatus.TERMINAL
     stage.end_time = end_time
     for task in stage.tasks:
-        if task.status == WorkflowStatus.RUNNING:
+        if task.status in (WorkflowStatus.RUNNING, WorkflowStatus.REDIRECT):
             task.status = WorkflowStatus.TERMINAL
             task.end_time = end_time
